@@ -117,7 +117,12 @@ func (s *Service) lastPruned(ctx context.Context) (*header.ExtendedHeader, error
 		return s.hstore.GetByHeight(ctx, lastPruned)
 	}
 
-	s.checkpoint.LastPrunedHeight = tail.Height()
+	if tail.Height() > lastPruned {
+		// everything below the tail is gone (its data was pruned when the header was deleted), but
+		// the tail itself has not been pruned yet: keep it out of the checkpoint, so that either this
+		// cycle (see findPruneableHeaders) or its deletion from the header store prunes its data
+		s.checkpoint.LastPrunedHeight = tail.Height() - 1
+	}
 	for height := range s.checkpoint.FailedHeaders {
 		if height < tail.Height() {
 			delete(s.checkpoint.FailedHeaders, height)
